@@ -81,3 +81,36 @@ pub fn policy_attrs(p: &AccessPolicy, out: &mut Vec<QualifiedAttribute>) {
         }
     }
 }
+
+/// Serialize through `write` and check the announced length and the returned byte count [C13].
+pub fn ser_strict<T: Serializable>(t: &T, what: &str) -> Result<Vec<u8>, Fail>
+where
+    T::Error: std::fmt::Display,
+{
+    use cosmian_crypto_core::bytes_ser_de::Serializer;
+    let mut s = Serializer::new();
+    let n = t.write(&mut s).map_err(|e| Fail::new("serialize-error", format!("{what}: {e}")))?;
+    let bytes = s.finalize().to_vec();
+    if n != bytes.len() {
+        return Err(Fail::new(format!("write-count-mismatch:{what}"), format!("{what}: write() returned {n} but appended {} bytes", bytes.len())));
+    }
+    if t.length() != bytes.len() {
+        return Err(Fail::new(format!("length-mismatch:{what}"), format!("{what}: length() announces {} but serialization is {} bytes", t.length(), bytes.len())));
+    }
+    let b2 = ser(t)?;
+    if b2 != bytes {
+        return Err(Fail::new(format!("serialize-not-deterministic:{what}"), format!("{what}: two serializations differ")));
+    }
+    Ok(bytes)
+}
+
+thread_local! {
+    static TL_CC: Covercrypt = Covercrypt::default();
+}
+
+/// A per-thread instance: `Covercrypt` holds its RNG behind a mutex for the whole duration of
+/// each call, so sharing one instance between harness threads would serialize them. Keys and
+/// encapsulations do not depend on the instance.
+pub fn with_cc<T>(f: impl FnOnce(&Covercrypt) -> T) -> T {
+    TL_CC.with(|cc| f(cc))
+}
